@@ -171,10 +171,43 @@ Example urljoin_dotsegments :
   option_map raw (urljoin u_top (rel (s "../../../x.css"))) = Some (s "http://h/../x.css").
 Proof. repeat split; vm_compute; reflexivity. Qed.
 
-(* ---- resolveImports.  The full statement ("resolve t = the rules of t with every loaded import replaced, in place and
-   in order, by its flattened rules, inside @media when media-restricted") is checked by the correspondence and the
-   oracle only; proved for all rule trees: it never raises, every unloaded @import is kept, rules already in the
-   target stay, and kept imports are re-resolved with the configured fetcher. *)
+(* ---- resolveImports = flatten, for ALL rule trees (induction over the import tree).  `flatten` (Imports.v) is the
+   readable specification: every rule contributes in document order -- a loaded `all` import the rules of its flattened
+   sheet, a loaded media-restricted import one @media rule (when its flattened sheet may stand inside @media) or itself,
+   an import that is not loaded ITSELF -- and add() places the contributions.  In particular resolveImports never
+   raises, and no unloaded import is lost at any depth (resolve_never_drops). *)
+Theorem resolve_imports_spec : forall rules, resolve rules = Some (flatten rules).
+Proof. exact resolve_imports_spec_lemma. Qed.
+Print Assumptions resolve_imports_spec.
+
+Theorem resolve_never_drops : forall rules,
+  has_unloaded rules ->
+  exists h media out, covers rules h media /\ resolve rules = Some out /\ In (FImport h media) out.
+Proof.
+  intros rules Hu. destruct (has_unloaded_covered rules Hu) as [h [media Hc]].
+  exists h, media, (flatten rules). split; [exact Hc|]. split; [apply resolve_imports_spec_lemma|].
+  apply flatten_covers. exact Hc.
+Qed.
+Print Assumptions resolve_never_drops.
+
+Theorem resolve_keeps_covered : forall rules h media,
+  covers rules h media -> In (FImport h media) (flatten rules).
+Proof. exact flatten_covers. Qed.
+Print Assumptions resolve_keeps_covered.
+
+(* a media-restricted loaded import above an unloaded one: the outer @import is kept with its media *)
+Example resolve_never_drops_nonvacuous :
+  let t := [RImport (s "b.css") (s "print") true None
+              [RImport (s "c.css") (s "all") false None []; RStyle (s "b") (s "1")]; RStyle (s "a") (s "2")] in
+  has_unloaded t /\ covers t (s "b.css") (s "print") /\
+  resolve t = Some [FComment (s " START @import ""b.css"" "); FImport (s "b.css") (s "print"); FStyle (s "a") (s "2")].
+Proof.
+  cbv zeta. split; [ | split].
+  - eapply un_below; [left; reflexivity|]. eapply un_here. left. reflexivity.
+  - eapply cov_media; [left; reflexivity | reflexivity | ]. eapply cov_here. left. reflexivity.
+  - vm_compute. reflexivity.
+Qed.
+
 Theorem resolve_total : forall rules, resolve rules <> None.
 Proof. intros rules. apply resolve_rules_total. Qed.
 Print Assumptions resolve_total.
